@@ -57,7 +57,7 @@ def main():
         if x == "--only": only = a.pop(0)
         elif x == "--jobs": jobs = int(a.pop(0))
         elif x == "--json": outp = a.pop(0)
-    entries = [m for m in mod.M if only is None or m["prop"] in (only, "*")]
+    entries = [m for m in mod.M if only is None or m["prop"] in (only, "*") or (only.endswith("+") and m["name"].startswith(only)) or (only.startswith("~") and only[1:] in m["name"])]
     with concurrent.futures.ThreadPoolExecutor(max_workers=jobs) as ex:
         results = list(ex.map(run_entry, entries))
     bad = 0
